@@ -6,7 +6,7 @@
    mirrors the handler bodies.  Handlers that are literal copies of each other for the three operand
    sizes or for several operators are written once, parametrically. *)
 From Coq Require Import Bool ZArith Lia List.
-From K Require Import Lib.Types Model.Machine Model.Bus Model.Cost Model.Addressing Model.Alu.
+From K Require Import Lib.Types Lib.Utf8 Model.Machine Model.Bus Model.Cost Model.Addressing Model.Alu.
 Import ListNotations.
 Open Scope bool_scope. Open Scope Z_scope.
 
@@ -327,6 +327,7 @@ Definition mes : M unit :=
     (* the loop `for i in 0..length` fails at the first unmapped byte; no mapped region is longer than 2 MiB,
        so H'200001 consecutive reads always fail: the bound only keeps the model's recursion finite *)
     bs <- read_bytes (Z.to_nat (Z.min a2 0x200001)) a1 ;;
+    guard (utf8_valid bs) ;;;                  (* String::from_utf8(chars)? *)
     modify (fun s => set_console (console s ++ bs) s) ;;;
     send_cpu_message (MsgStdout bs)
   else fail.
